@@ -123,10 +123,24 @@ def subst(t, m, memo=None):
     return r
 
 
+EXT = None      # (extent atom 0, extent atom 1) when the side length is a virtual atom: guards may still mention the extents
+
+
+def envs(base, n, ncall):
+    """environments for side length n: the side atom bound to n and, if the extents can occur, extent pairs with that side"""
+    if EXT is None:
+        return [dict(base, **{})] if False else [{**base, ncall: n}]
+    h = n // 2 + 1 if n > 1 else 1
+    return [{**base, ncall: n, EXT[0]: a, EXT[1]: b} for a, b in {(n, 1), (1, n), (h, h), (n, n), (h, 1)}]
+
+
 def ev(t, env):
     """exact evaluation of a level-arithmetic term in the exponent domain (env binds the level carrier and n)"""
     if t in env:
         return env[t]
+    if t[0] == 'fn' and t[1] in ('llvm.umax', 'llvm.umin'):
+        a, b = ev(t[3], env), ev(t[4], env)
+        return max(a, b) if t[1] == 'llvm.umax' else min(a, b)
     h = t[0]
     if h == 'call' and ('call', t[1], t[2]) in env:
         return env[('call', t[1], t[2])]
@@ -364,10 +378,11 @@ def schedule(s, cur, ncall, coords):
         raise AnalysisBroken("Hilbert walk: %d back edges" % len(latches))
     for k in range(0, 64):
         n = 1 << k
-        first = ev(s0, {ncall: n})
+        firsts = {ev(s0, e_) for e_ in envs({}, n, ncall)}
+        first = min(firsts)
         if k == 0:
             continue
-        if first & (first - 1) or first < n // 2:
+        if any(f_ & (f_ - 1) for f_ in firsts) or first < n // 2:
             return "for side length 2^%d the walk starts at level %d; it must start at (at least) %d so that the top bit of the coordinates is examined" % (k, first, n // 2)
     # every carrier value 2^m that denotes a level of the walk for side length 2^k
     seen_levels = set()
@@ -375,16 +390,17 @@ def schedule(s, cur, ncall, coords):
         n = 1 << k
         for m in range(0, 64):
             c = 1 << m
-            lev = ev(S, {L: c, ncall: n})
-            if lev == 0 or lev & (lev - 1) or lev > ev(s0, {ncall: n}):
-                continue
-            seen_levels.add(lev)
-            nl = ev(nxt, {L: c, ncall: n})
-            if nl != lev // 2:
-                return "after level %d the walk continues at level %d, not %d" % (lev, nl, lev // 2)
-            cont = ev(latches[0], {L: c, ncall: n})
-            if cont != (lev // 2 != 0):
-                return "at level %d (side length 2^%d) the loop %s; it must run down to level 1 inclusive and stop there" % (lev, k, "continues" if cont else "stops")
+            for e_ in envs({L: c}, n, ncall):
+                lev = ev(S, e_)
+                if lev == 0 or lev & (lev - 1) or lev > ev(s0, e_):
+                    continue
+                seen_levels.add(lev)
+                nl = ev(nxt, e_)
+                if nl != lev // 2:
+                    return "after level %d the walk continues at level %d, not %d" % (lev, nl, lev // 2)
+                cont = ev(latches[0], e_)
+                if cont != (lev // 2 != 0):
+                    return "at level %d (side length 2^%d) the loop %s; it must run down to level 1 inclusive and stop there" % (lev, k, "continues" if cont else "stops")
     if 1 not in seen_levels:
         raise AnalysisBroken("Hilbert walk: level carrier does not reach level 1 in the exponent domain")
     return None
@@ -392,7 +408,7 @@ def schedule(s, cur, ncall, coords):
 
 def result(s, cur, ncall, res):
     """the value handed on is 0 for the 1x1 square and the position after the last level otherwise"""
-    if ev(res, {ncall: 1}) != 0:
+    if any(ev(res, e_) != 0 for e_ in envs({}, 1, ncall)):
         return "for a 1 x 1 square the position is not 0"
     guards = {}
 
@@ -402,8 +418,9 @@ def result(s, cur, ncall, res):
     walk(res, f)
     forms = set()
     for k in range(1, 64):
-        m = {g: (ir.TRUE if ev(g, {ncall: 1 << k}) else ir.FALSE) for g in guards}
-        forms.add(const_fold(subst(res, m)))
+        for e_ in envs({}, 1 << k, ncall):
+            m = {g: (ir.TRUE if ev(g, e_) else ir.FALSE) for g in guards}
+            forms.add(const_fold(subst(res, m)))
     if forms == {cur.step['D']}:
         return None
     if forms == {cur.iv['D']}:
@@ -425,3 +442,143 @@ def check(s, c0, c1, ncall, res):
     if bad:
         return bad, desc
     return result(s, cur, ncall, res), desc
+
+
+# ---- a side length computed without calling round_pow2 (bit tricks, a cached member) ------------------------------------
+def ev_int(t, env):
+    """exact 64-bit evaluation of a straight-line integer term over the extents (no coordinates, no loop values)"""
+    if t in env:
+        return env[t]
+    h = t[0]
+    if h == 'ci':
+        return t[1] & M64
+    if h == 'op':
+        a, b = ev_int(t[3], env), ev_int(t[4], env)
+        o = t[1]
+        if o == 'lshr':
+            return a >> b if b < 64 else 0
+        if o == 'shl':
+            return (a << b) & M64 if b < 64 else 0
+        if o in ('udiv', 'urem'):
+            if b == 0:
+                raise AnalysisBroken("division by zero in the side length")
+            return a // b if o == 'udiv' else a % b
+        if o in ('add', 'sub', 'mul', 'and', 'or', 'xor'):
+            return {'add': a + b, 'sub': a - b, 'mul': a * b, 'and': a & b, 'or': a | b, 'xor': a ^ b}[o] & M64
+    if h == 'cast' and t[1] in ('zext', 'trunc', 'sext'):
+        v = ev_int(t[3], env)
+        bits = ir.type_bits(t[2]) or 64
+        return v & ((1 << bits) - 1)
+    if h == 'cmp':
+        a, b = ev_int(t[2], env), ev_int(t[3], env)
+        sx = lambda v: v - (1 << 64) if v >> 63 else v
+        return {'eq': a == b, 'ne': a != b, 'ult': a < b, 'ule': a <= b, 'ugt': a > b, 'uge': a >= b,
+                'slt': sx(a) < sx(b), 'sle': sx(a) <= sx(b), 'sgt': sx(a) > sx(b), 'sge': sx(a) >= sx(b)}[t[1]]
+    if h in ('not', 'and', 'or'):
+        xs = [ev_int(x, env) for x in t[1:]]
+        return (not xs[0]) if h == 'not' else (xs[0] and xs[1]) if h == 'and' else (xs[0] or xs[1])
+    if h == 'sel':
+        return ev_int(t[2], env) if ev_int(t[1], env) else ev_int(t[3], env)
+    if h == 'fn':
+        base = t[1]
+        args = [ev_int(x, env) for x in t[3:]]
+        w = ir.type_bits(t[2]) or 64
+        if base == 'llvm.ctlz':
+            return w - args[0].bit_length() if args[0] else w
+        if base == 'llvm.cttz':
+            return (args[0] & -args[0]).bit_length() - 1 if args[0] else w
+        if base == 'llvm.ctpop':
+            return bin(args[0]).count("1")
+        if base == 'llvm.umax':
+            return max(args[0], args[1])
+        if base == 'llvm.umin':
+            return min(args[0], args[1])
+    raise AnalysisBroken("the Hilbert side length uses an operation this evaluation does not know: %s" % ir.show(t)[:80])
+
+
+def rp2(m):
+    v = 1
+    while v < m:
+        v *= 2
+    return v
+
+
+def extent_pairs():
+    """extents at which an expression built from `count leading zeros`, shifts and constants can change its value: the
+    powers of two and their neighbours, for the larger extent; the other extent smaller, equal, or 1; both orders"""
+    out = []
+    for k in range(0, 40):
+        for m in (1 << k, (1 << k) + 1, (1 << (k + 1)) - 1):
+            for o in (1, m, max(1, m // 2), max(1, m - 1)):
+                out += [(m, o), (o, m)]
+    return sorted(set(out))
+
+
+def side_without_call(s, cur, ext, coords):
+    """The walk does not obtain its side from utility::round_pow2.  The first level, a straight-line expression over the
+    extents, is evaluated at the extents where such an expression can change; it must be a power of two >= half of the
+    least power of two >= the larger extent.  Returns (violation | None, atom mapping for the rest of the analysis)."""
+    L = cur.iv['L']
+    init = s.iv[cur.role['L']]["init"]
+    s0 = subst(cur.S, {L: init})
+    lv = leaves(s0)
+    if lv & set(coords):
+        return None, None          # judged by schedule()
+    if not lv <= set(ext) or any(a[0] == 'call' for a in lv):
+        raise AnalysisBroken("Hilbert walk: first level %s depends on something other than the extents" % ir.show(s0)[:80])
+    for (e0, e1) in extent_pairs():
+        env = {ext[0]: e0, ext[1]: e1}
+        v = ev_int(s0, env)
+        n = rp2(max(e0, e1))
+        if n == 1:
+            continue
+        if v == 0 or v & (v - 1) or v < n // 2:
+            return ("for extents (%d, %d) the walk starts at level %d; the curve must cover a square of side %d (the larger extent rounded up to a power of two), so the first level must be at least %d: "
+                    "cells whose coordinates have higher bits set share positions with others" % (e0, e1, v, n, n // 2)), None
+    return None, True
+
+
+VIRT = ('call', 'virtual_side', -1)
+
+
+class Proxy:
+    """the loop view of a function with the side-length expression replaced by an atom"""
+
+    def __init__(self, s, m):
+        self.s, self.m = s, m
+        self.loops = s.loops
+        self.iv = {k: dict(v, init=subst(v["init"], m)) for k, v in s.iv.items()}
+        self.latch_cond = {k: subst(v, m) for k, v in getattr(s, "latch_cond", {}).items()}
+        self.ret_cond = [(subst(c, m), subst(v, m) if isinstance(v, tuple) else v) for c, v in s.ret_cond]
+
+    def iv_step(self, pid):
+        return [subst(x, m_) if x is not None else None for x, m_ in ((x, self.m) for x in self.s.iv_step(pid))]
+
+
+def virtual_side(s, ext, coords):
+    """When no round_pow2 call is present: the sub-expression of the level carrier's start value that depends on the extents
+    only is checked to BE the least power of two >= the larger extent (or half of it) at every extent pair where it can
+    change, and replaced by an atom so that the induction and the schedule are decided as usual.
+    Returns (proxy, atom, violation text)."""
+    cand = None
+    for pid, info in s.iv.items():
+        lv = leaves(info["init"])
+        if lv and lv <= set(ext):
+            cand = info["init"]
+    if cand is None:
+        inits = [ir.strip_casts(i["init"], ("zext", "sext", "trunc")) for i in s.iv.values()]
+        if s.iv and all(x[0] == 'ci' or x in coords for x in inits):
+            return None, None, ("no loop-carried value of the walk starts from the extents (start values: %s): the curve's side does not depend on the field's size, "
+                                "so the walk cannot cover the square the storage is allocated for" % [ir.show(x) for x in inits])
+        return None, None, None
+    vals = []
+    for (e0, e1) in extent_pairs():
+        v = ev_int(cand, {ext[0]: e0, ext[1]: e1})
+        vals.append((e0, e1, v, rp2(max(e0, e1))))
+    if all(v == n for _, _, v, n in vals):
+        return Proxy(s, {cand: VIRT}), VIRT, None
+    if all(v == n // 2 for _, _, v, n in vals):
+        return Proxy(s, {cand: ('op', 'lshr', 'i64', VIRT, ('ci', 1, 64))}), VIRT, None
+    e0, e1, v, n = next((x for x in vals if x[2] != x[3] and x[2] != x[3] // 2), None) or next(x for x in vals if x[2] != x[3] and x[3] > 1)
+    return None, None, ("for extents (%d, %d) the walk's side is derived from %d; the curve must cover a square of side %d (the larger extent rounded up to a power of two): "
+                        "cells whose coordinates have higher bits set share positions with others, or positions exceed the storage" % (e0, e1, v, n))
